@@ -88,6 +88,17 @@ Proof.
   assert ((x - 1) / 2 < k)%nat by (apply Nat.div_lt_upper_bound; lia). lia.
 Qed.
 
+Lemma up_dec x : forall q, {up x q} + {~ up x q}.
+Proof.
+  induction x as [x IH] using (well_founded_induction lt_wf). intros q.
+  destruct (Nat.eq_dec q x) as [->|Hne]; [left; constructor|].
+  destruct x as [|x'].
+  - right. intros H. apply up_le in H. lia.
+  - destruct (IH (parent (S x')) (parent_lt (S x') ltac:(lia)) q) as [H|H].
+    + left. eapply up_trans; [|exact H]. apply up_step; [lia|constructor].
+    + right. intros Hu. apply H. apply up_strict; auto.
+Qed.
+
 Lemma leaf_parent_eq (x : nat) : (1 <= x)%nat -> leaf_parent (Z.of_nat x) = parent x.
 Proof.
   intros H. unfold leaf_parent, parent.
@@ -383,21 +394,23 @@ Section Tree.
         assert (Hn' : ~ up (parent c) q) by exact Hn.
         destruct (Idone q Hq Hn') as [N G]. unfold node_ok. rewrite E1, E2, E3.
         rewrite HLx by (apply Nat.eqb_neq; exact E1). split; assumption. }
-      unfold Lc', cand', Wc', game. rewrite Hplayer.
+      unfold Wc', Lc', cand', game. rewrite Hplayer.
       destruct ((0 <=? Wc s) && ((cand <? 0) || (cmp_heads K cmp bufs (Wc s) cand <? 0))) eqn:Econd; cbn [fst snd].
       - (* the stored player wins and moves up; the candidate is stored as the loser *)
         apply andb_true_iff in Econd. destruct Econd as [Hp0 Hc]. apply Z.leb_le in Hp0.
         assert (Hlp : loser (upd Lc p cand) p = cand) by (unfold loser; apply nth_upd_same; lia).
-        repeat split.
+        split; [|split; [|split; [|split; [|split; [|split; [|split; [|split]]]]]]].
         + rewrite upd_length. exact Ilen.
         + now rewrite Epp.
         + intros _. auto.
         + intros i Hi. replace (k + i =? p)%nat with false by (symmetry; apply Nat.eqb_neq; lia). auto.
         + replace (2 * k =? p)%nat with false by (symmetry; apply Nat.eqb_neq; lia). exact Iph.
-        + rewrite Epp, Hlp. destruct Hch as [[-> ->]|[-> ->]];
-            (replace (2 * p + 1 =? p)%nat with false by (symmetry; apply Nat.eqb_neq; lia));
-            (replace (2 * p + 2 =? p)%nat with false by (symmetry; apply Nat.eqb_neq; lia)); [right|left]; auto.
-        + rewrite Epp, Hlp. apply orb_true_iff in Hc. destruct Hc as [Hc|Hc].
+        + unfold node_ok. rewrite Epp, Hlp. split.
+          { (replace (2 * p + 1 =? p)%nat with false by (symmetry; apply Nat.eqb_neq; lia));
+            (replace (2 * p + 2 =? p)%nat with false by (symmetry; apply Nat.eqb_neq; lia)).
+            destruct Hch as [[Ec Es]|[Ec Es]]; rewrite <- ?Ec, <- ?Es;
+              first [left; split; congruence | right; split; congruence]. }
+          apply orb_true_iff in Hc. destruct Hc as [Hc|Hc].
           * apply Z.ltb_lt in Hc. unfold ph at 2. destruct (Z.ltb_spec cand 0); [exact I|lia].
           * apply Z.ltb_lt in Hc. destruct (Z_lt_le_dec cand 0) as [Hn|Hn].
             { unfold ph at 2. destruct (Z.ltb_spec cand 0); [exact I|lia]. }
@@ -410,17 +423,17 @@ Section Tree.
           symmetry. apply Nat.eqb_neq. intros ->. auto.
       - (* the candidate keeps winning *)
         apply andb_false_iff in Econd.
-        repeat split.
+        split; [|split; [|split; [|split; [|split; [|split; [|split; [|split]]]]]]].
         + exact Ilen.
         + now rewrite Epp.
         + exact Ihd.
         + intros i Hi. replace (k + i =? p)%nat with false by (symmetry; apply Nat.eqb_neq; lia). auto.
         + replace (2 * k =? p)%nat with false by (symmetry; apply Nat.eqb_neq; lia). exact Iph.
-        + rewrite Epp. change (loser Lc p) with (nth p Lc (-1)). rewrite Hplayer.
-          destruct Hch as [[-> ->]|[-> ->]];
-            (replace (2 * p + 1 =? p)%nat with false by (symmetry; apply Nat.eqb_neq; lia));
-            (replace (2 * p + 2 =? p)%nat with false by (symmetry; apply Nat.eqb_neq; lia)); [left|right]; auto.
-        + rewrite Epp. change (loser Lc p) with (nth p Lc (-1)). rewrite Hplayer.
+        + unfold node_ok. rewrite Epp. change (loser Lc p) with (nth p Lc (-1)). rewrite Hplayer. split.
+          { (replace (2 * p + 1 =? p)%nat with false by (symmetry; apply Nat.eqb_neq; lia));
+            (replace (2 * p + 2 =? p)%nat with false by (symmetry; apply Nat.eqb_neq; lia)).
+            destruct Hch as [[Ec Es]|[Ec Es]]; rewrite <- ?Ec, <- ?Es;
+              first [left; split; congruence | right; split; congruence]. }
           destruct (Z_lt_le_dec (Wc s) 0) as [Hn|Hp0].
           { unfold ph at 2. destruct (Z.ltb_spec (Wc s) 0); [exact I|lia]. }
           destruct Econd as [Hc|Hc]; [apply Z.leb_gt in Hc; lia|].
@@ -434,5 +447,370 @@ Section Tree.
         + intros q Hq. replace (q =? p)%nat with false; [apply Ioff; exact Hq|].
           symmetry. apply Nat.eqb_neq. intros ->. auto.
     Qed.
+    Lemma replay_walk_unfold fuel Lc cand p :
+      replay_walk K cmp fuel bufs Lc cand p =
+      match p, fuel with
+      | O, _ => game Lc cand p
+      | _, O => game Lc cand p
+      | _, S f => replay_walk K cmp f bufs (fst (game Lc cand p)) (snd (game Lc cand p)) (parent p)
+      end.
+    Proof.
+      unfold game. destruct fuel; cbn [replay_walk];
+        destruct ((0 <=? nth p Lc (-1)) && ((cand <? 0) || (cmp_heads K cmp bufs (nth p Lc (-1)) cand <? 0)));
+        destruct p; reflexivity.
+    Qed.
+
+    Lemma ph_agree a : a <> Z.of_nat wn -> ph hd' a = ph hd a.
+    Proof.
+      intros H. unfold ph. destruct (Z.ltb_spec a 0); [reflexivity|].
+      unfold hd'. apply Hagree. lia.
+    Qed.
+
+    Lemma replay_walk_shape fuel : forall c cand Lc Wc,
+      WI c cand Lc Wc -> (parent c <= fuel)%nat ->
+      exists W', Shape k (fst (replay_walk K cmp fuel bufs Lc cand (parent c)))
+                         (snd (replay_walk K cmp fuel bufs Lc cand (parent c))) hd' W'.
+    Proof.
+      induction fuel as [|f IH]; intros c cand Lc Wc I Hf;
+        pose proof (game_step c cand Lc Wc I) as G; cbv zeta in G;
+        destruct G as [G1 [G2 [G3 [G4 [G5 [G6 [G7 [G8 G9]]]]]]]];
+        rewrite replay_walk_unfold.
+      - assert (E : parent c = 0%nat) by lia. rewrite E in *. cbn [fst snd].
+        exists (fun q : nat => if (q =? 0)%nat then snd (game Lc cand 0%nat) else Wc q). split; [exact G1|exact G4|exact G5| | |exact G2|].
+        + intros q Hq. destruct (Nat.eq_dec q 0) as [->|Hne]; [apply G6|].
+          apply G7; auto. intros Hu. apply up_le in Hu. lia.
+        + intros q Hq. destruct (Nat.eq_dec q 0) as [->|Hne]; [apply G6|].
+          apply G7; auto. intros Hu. apply up_le in Hu. lia.
+        + intros i Hi. apply heads_overflow. lia.
+      - destruct (parent c) as [|p'] eqn:E.
+        + cbn [fst snd]. exists (fun q : nat => if (q =? 0)%nat then snd (game Lc cand 0%nat) else Wc q). split; [exact G1|exact G4|exact G5| | |exact G2|].
+          * intros q Hq. destruct (Nat.eq_dec q 0) as [->|Hne]; [apply G6|].
+            apply G7; auto. intros Hu. apply up_le in Hu. lia.
+          * intros q Hq. destruct (Nat.eq_dec q 0) as [->|Hne]; [apply G6|].
+            apply G7; auto. intros Hu. apply up_le in Hu. lia.
+          * intros i Hi. apply heads_overflow. lia.
+        + rewrite <- E in *. destruct I as [Iup Ipos Ilen Icand Ihd Ileaf Iph Idone Itodo Ioff].
+          assert (Hpp : (0 < parent c)%nat) by lia.
+          eapply (IH (parent c) _ _ (fun q : nat => if (q =? parent c)%nat then snd (game Lc cand (parent c)) else Wc q));
+            [|pose proof (parent_lt _ Hpp); lia].
+          split; auto.
+          * now apply up_step.
+          * intros q Hq Hn. destruct (Nat.eq_dec q (parent c)) as [->|Hne]; [exact G6|].
+            apply G7; auto. intros Hu. apply Hn. apply up_strict; auto.
+          * intros q Hu. apply G8.
+            -- eapply up_trans; [|exact Hu]. apply up_step; [exact Hpp|constructor].
+            -- apply up_le in Hu. pose proof (parent_lt _ Hpp). lia.
+    Qed.
+
+    Lemma wi_init :
+      WI x (lv hd' wn) L (fun q => if (q =? x)%nat then lv hd' wn else W q).
+    Proof.
+      pose proof wn_lt' as Hwn.
+      assert (Hx : forall q, (q < k)%nat -> (q =? x)%nat = false) by (intros; apply Nat.eqb_neq; unfold x; lia).
+      split.
+      - constructor.
+      - unfold x. lia.
+      - exact (sh_len _ _ _ _ _ SH).
+      - now rewrite Nat.eqb_refl.
+      - unfold lv. destruct (hd' wn) eqn:E; [|lia]. intros _. unfold ph.
+        destruct (Z.ltb_spec (Z.of_nat wn) 0); [lia|]. rewrite Nat2Z.id. congruence.
+      - intros i Hi. destruct (Nat.eq_dec i wn) as [->|Hne].
+        + fold x. now rewrite Nat.eqb_refl.
+        + replace (k + i =? x)%nat with false by (symmetry; apply Nat.eqb_neq; unfold x; lia).
+          rewrite (sh_leaf _ _ _ _ _ SH i Hi). unfold lv, hd'. now rewrite Hagree.
+      - replace (2 * k =? x)%nat with false by (symmetry; apply Nat.eqb_neq; unfold x; lia).
+        exact (sh_phantom _ _ _ _ _ SH).
+      - intros q Hq Hn.
+        assert (Hnx : ~ up x q).
+        { intros Hu. apply Hn. apply up_strict; [exact Hu|unfold x; lia]. }
+        destruct (off_path_players k L _ hd W SH wn eq_refl q Hq Hnx) as [O1 O2].
+        assert (E1 : (2 * q + 1 =? x)%nat = false).
+        { apply Nat.eqb_neq. intros E. apply Hn. rewrite <- E, parent_child1. constructor. }
+        assert (E2 : (2 * q + 2 =? x)%nat = false).
+        { apply Nat.eqb_neq. intros E. apply Hn. rewrite <- E, parent_child2. constructor. }
+        unfold node_ok. rewrite (Hx q Hq), E1, E2. split.
+        + exact (sh_node _ _ _ _ _ SH q Hq).
+        + rewrite !ph_agree by assumption. exact (sh_game _ _ _ _ _ SH q Hq).
+      - reflexivity.
+      - intros q Hn. replace (q =? x)%nat with false; [reflexivity|].
+        symmetry. apply Nat.eqb_neq. intros ->. apply Hn. constructor.
+    Qed.
+
+    (** replayGames: from the leaf of the previous winner, whose head changed
+        (or which is exhausted: candidate -1), the walk to the root restores
+        the invariant for the current heads *)
+    Theorem replay_walk_inv :
+      TreeInv k (fst (replay_walk K cmp k bufs L (lv hd' wn) (parent x)))
+                (snd (replay_walk K cmp k bufs L (lv hd' wn) (parent x))) hd'.
+    Proof.
+      eapply replay_walk_shape; [exact wi_init|].
+      pose proof (parent_lt_k x (up_refl _)) as H. pose proof wn_lt'. unfold x in *. lia.
+    Qed.
   End Replay.
+
+  (** ** playInitialGames establishes the invariant *)
+  Lemma up_child q i : up q i -> q <> i -> up q (2 * i + 1) \/ up q (2 * i + 2).
+  Proof.
+    intros H Hne. inversion H as [|r Hr Hu E]; [congruence|]. subst.
+    destruct (child_of_parent r Hr) as [Ec|Ec]; [left|right]; rewrite <- Ec; exact Hu.
+  Qed.
+
+  Section Initial.
+    Variable bufs : list buf.
+    Variable leaves : list Z.
+    Let k := length bufs.
+    Let hd := heads bufs.
+    Hypothesis Hleaves_len : length leaves = k.
+    Hypothesis Hleaves : forall i, (i < k)%nat -> nth i leaves (-1) = lv hd i.
+
+    Fixpoint Wf (d q : nat) : Z :=
+      if (k <=? q)%nat then nth (q - k) leaves (-1)
+      else match d with
+           | O => -1
+           | S d' => snd (play_game K cmp bufs (Wf d' (2 * q + 1)) (Wf d' (2 * q + 2)))
+           end.
+
+    Lemma Wf_leaf d q : (k <= q)%nat -> Wf d q = nth (q - k) leaves (-1).
+    Proof. intros H. destruct d; cbn [Wf]; destruct (Nat.leb_spec k q); auto; lia. Qed.
+
+    Lemma Wf_node d q : (q < k)%nat ->
+      Wf (S d) q = snd (play_game K cmp bufs (Wf d (2 * q + 1)) (Wf d (2 * q + 2))).
+    Proof. intros H. cbn [Wf]. destruct (Nat.leb_spec k q); [lia|reflexivity]. Qed.
+
+    Lemma Wf_fuel d : forall q, ((q + 1) * 2 ^ d > k)%nat -> Wf (S d) q = Wf d q.
+    Proof.
+      induction d as [|d IH]; intros q Hq.
+      - cbn in Hq. rewrite !Wf_leaf by lia. reflexivity.
+      - destruct (Nat.lt_ge_cases q k) as [Hlt|Hge]; [|now rewrite !Wf_leaf by lia].
+        rewrite (Wf_node (S d) q Hlt), (Wf_node d q Hlt).
+        rewrite !IH; [reflexivity| |]; rewrite Nat.pow_succ_r' in Hq; nia.
+    Qed.
+
+    Definition W0 : nat -> Z := Wf (S k).
+
+    Lemma pow_gt k' : (2 ^ k' > k')%nat.
+    Proof. apply Nat.pow_gt_lin_r. lia. Qed.
+
+    Lemma W0_node q : (q < k)%nat ->
+      W0 q = snd (play_game K cmp bufs (W0 (2 * q + 1)) (W0 (2 * q + 2))).
+    Proof.
+      intros H. unfold W0. rewrite (Wf_node k q H).
+      pose proof (pow_gt k). rewrite !(Wf_fuel k); [reflexivity| |]; nia.
+    Qed.
+
+    Lemma W0_fuel d q : ((q + 1) * 2 ^ d > k)%nat -> Wf d q = W0 q.
+    Proof.
+      intros H. unfold W0.
+      (* both have enough fuel: compare through the larger *)
+      assert (G : forall e, Wf (d + e) q = Wf d q).
+      { induction e as [|e IHe]; [now rewrite Nat.add_0_r|].
+        replace (d + S e)%nat with (S (d + e)) by lia. rewrite Wf_fuel; [exact IHe|].
+        rewrite Nat.pow_add_r. pose proof (pow_gt e). nia. }
+      assert (G' : forall e, Wf (S k + e) q = Wf (S k) q).
+      { induction e as [|e IHe]; [now rewrite Nat.add_0_r|].
+        replace (S k + S e)%nat with (S (S k + e)) by lia. rewrite Wf_fuel; [exact IHe|].
+        rewrite Nat.pow_add_r. pose proof (pow_gt (S k)). pose proof (pow_gt e). nia. }
+      rewrite <- (G (S k)), <- (G' d). f_equal. lia.
+    Qed.
+
+    Lemma play_initial_winner d : forall Lin q, snd (play_initial K cmp d bufs leaves Lin q) = Wf d q.
+    Proof.
+      induction d as [|d IH]; intros Lin q; cbn [play_initial Wf]; fold k;
+        destruct (k <=? q)%nat; try reflexivity.
+      pose proof (IH Lin (2 * q + 1)%nat) as H1.
+      destruct (play_initial K cmp d bufs leaves Lin (2 * q + 1)) as [l1 n1]. cbn [snd] in H1.
+      pose proof (IH l1 (2 * q + 2)%nat) as H2.
+      destruct (play_initial K cmp d bufs leaves l1 (2 * q + 2)) as [l2 n2]. cbn [snd] in H2.
+      subst. destruct (play_game K cmp bufs _ _); reflexivity.
+    Qed.
+
+    Lemma play_initial_losers d : forall Lin i, ((i + 1) * 2 ^ d > k)%nat -> length Lin = k ->
+      let L' := fst (play_initial K cmp d bufs leaves Lin i) in
+      length L' = k /\
+      (forall q, ~ (up q i /\ (q < k)%nat) -> nth q L' (-1) = nth q Lin (-1)) /\
+      (forall q, (q < k)%nat -> up q i ->
+         nth q L' (-1) = fst (play_game K cmp bufs (W0 (2 * q + 1)) (W0 (2 * q + 2)))).
+    Proof.
+      induction d as [|d IH]; intros Lin i Hf Hlen; cbn [play_initial]; fold k.
+      - cbn in Hf. destruct (Nat.leb_spec k i); [|lia]. cbn [fst].
+        repeat split; auto. intros q Hq Hu. apply up_le in Hu. lia.
+      - destruct (Nat.leb_spec k i) as [Hge|Hlt]; cbn [fst].
+        { repeat split; auto. intros q Hq Hu. apply up_le in Hu. lia. }
+        rewrite Nat.pow_succ_r' in Hf.
+        pose proof (IH Lin (2 * i + 1)%nat ltac:(nia) Hlen) as I1.
+        pose proof (play_initial_winner d Lin (2 * i + 1)%nat) as V1.
+        destruct (play_initial K cmp d bufs leaves Lin (2 * i + 1)) as [l1 n1]. cbn [fst snd] in I1, V1.
+        destruct I1 as [I1a [I1b I1c]].
+        pose proof (IH l1 (2 * i + 2)%nat ltac:(nia) I1a) as I2.
+        pose proof (play_initial_winner d l1 (2 * i + 2)%nat) as V2.
+        destruct (play_initial K cmp d bufs leaves l1 (2 * i + 2)) as [l2 n2]. cbn [fst snd] in I2, V2.
+        destruct I2 as [I2a [I2b I2c]].
+        rewrite (W0_fuel d) in V1, V2 by nia. subst n1 n2.
+        destruct (play_game K cmp bufs (W0 (2 * i + 1)) (W0 (2 * i + 2))) as [lo wi] eqn:Eg. cbn [fst].
+        split; [rewrite upd_length; exact I2a|]. split.
+        + intros q Hq.
+          assert (q <> i) by (intros ->; apply Hq; split; [constructor|lia]).
+          rewrite nth_upd_other by auto.
+          rewrite I2b.
+          * apply I1b. intros [Hu Hk]. apply Hq. split; [|exact Hk].
+            rewrite <- (parent_child1 i). apply up_step; [lia|exact Hu].
+          * intros [Hu Hk]. apply Hq. split; [|exact Hk].
+            rewrite <- (parent_child2 i). apply up_step; [lia|exact Hu].
+        + intros q Hq Hu. destruct (Nat.eq_dec q i) as [->|Hne].
+          * rewrite nth_upd_same by lia. now rewrite Eg.
+          * rewrite nth_upd_other by auto. destruct (up_child q i Hu Hne) as [Hc|Hc].
+            -- rewrite I2b; [apply I1c; assumption|].
+               intros [Hu2 _]. exact (up_siblings q i Hc Hu2).
+            -- apply I2c; assumption.
+    Qed.
+
+    (* players that are not negative have a head *)
+    Lemma Wf_alive d : forall q, 0 <= Wf d q -> ph hd (Wf d q) <> None.
+    Proof.
+      induction d as [|d IH]; intros q; cbn [Wf]; destruct (Nat.leb_spec k q) as [Hge|Hlt]; try lia.
+      - intros H. destruct (Nat.lt_ge_cases (q - k) k) as [Hi|Hi].
+        + rewrite Hleaves in * by assumption. unfold lv in *. destruct (hd (q - k)%nat) eqn:E; [|lia].
+          unfold ph. destruct (Z.ltb_spec (Z.of_nat (q - k)) 0); [lia|]. rewrite Nat2Z.id. congruence.
+        + rewrite nth_overflow in H by lia. lia.
+      - intros H. destruct (Nat.lt_ge_cases (q - k) k) as [Hi|Hi].
+        + rewrite Hleaves in * by assumption. unfold lv in *. destruct (hd (q - k)%nat) eqn:E; [|lia].
+          unfold ph. destruct (Z.ltb_spec (Z.of_nat (q - k)) 0); [lia|]. rewrite Nat2Z.id. congruence.
+        + rewrite nth_overflow in H by lia. lia.
+      - unfold play_game.
+        destruct (Wf d (2 * q + 1) <? 0); [apply IH|]. destruct (Wf d (2 * q + 2) <? 0); [apply IH|].
+        destruct (cmp_heads K cmp bufs _ _ <? 0); apply IH.
+    Qed.
+
+    Lemma play_game_spec a b : (0 <= a -> ph hd a <> None) -> (0 <= b -> ph hd b <> None) ->
+      let '(lo, wi) := play_game K cmp bufs a b in
+      ((wi = a /\ lo = b) \/ (wi = b /\ lo = a)) /\ ole (ph hd wi) (ph hd lo).
+    Proof.
+      intros Ha Hb. unfold play_game.
+      destruct (Z.ltb_spec a 0) as [Ha0|Ha0].
+      { split; [now right|]. unfold ph at 2. destruct (Z.ltb_spec a 0); [exact I|lia]. }
+      destruct (Z.ltb_spec b 0) as [Hb0|Hb0].
+      { split; [now left|]. unfold ph at 2. destruct (Z.ltb_spec b 0); [exact I|lia]. }
+      destruct (ph hd a) as [x|] eqn:Ea; [|exfalso; now apply Ha].
+      destruct (ph hd b) as [y|] eqn:Eb; [|exfalso; now apply Hb].
+      rewrite (cmp_heads_some bufs a b x y Ha0 Hb0 Ea Eb).
+      destruct (Z.ltb_spec (rcmp x y) 0) as [Hc|Hc].
+      - split; [now left|]. rewrite Ea, Eb. cbn. unfold AbstractProofs.rle. lia.
+      - split; [now right|]. rewrite Ea, Eb. cbn. unfold AbstractProofs.rle, Model.rcmp in *.
+        apply (cmp_ge_le K cmp cmp_opp). lia.
+    Qed.
+
+    Theorem play_initial_inv :
+      let r := play_initial K cmp (S k) bufs leaves (repeat 0 k) 0 in
+      TreeInv k (fst r) (snd r) hd.
+    Proof.
+      intros r. exists W0.
+      pose proof (pow_gt (S k)) as Hp.
+      destruct (play_initial_losers (S k) (repeat 0 k) 0%nat ltac:(lia) (repeat_length _ _)) as [P1 [_ P3]].
+      fold r in P1, P3.
+      assert (Hnode : forall p, (p < k)%nat ->
+                ((W0 p = W0 (2 * p + 1)%nat /\ loser (fst r) p = W0 (2 * p + 2)%nat) \/
+                 (W0 p = W0 (2 * p + 2)%nat /\ loser (fst r) p = W0 (2 * p + 1)%nat)) /\
+                ole (ph hd (W0 p)) (ph hd (loser (fst r) p))).
+      { intros p Hpk. unfold loser. rewrite (P3 p Hpk (up_root p)), (W0_node p Hpk).
+        pose proof (play_game_spec (W0 (2 * p + 1)) (W0 (2 * p + 2)) (Wf_alive _ _) (Wf_alive _ _)) as G.
+        destruct (play_game K cmp bufs (W0 (2 * p + 1)) (W0 (2 * p + 2))) as [lo wi]. cbn [fst snd].
+        destruct G as [[[-> ->]|[-> ->]] G2]; auto. }
+      split.
+      - exact P1.
+      - intros i Hi. unfold W0. rewrite Wf_leaf by lia. replace (k + i - k)%nat with i by lia. now apply Hleaves.
+      - unfold W0. rewrite Wf_leaf by lia. apply nth_overflow. lia.
+      - intros p Hpk. apply Hnode; assumption.
+      - intros p Hpk. apply Hnode; assumption.
+      - unfold r. rewrite play_initial_winner. reflexivity.
+      - intros i Hi. apply heads_overflow. exact Hi.
+    Qed.
+  End Initial.
+
+  (** ** runBound is the smallest head among the other readers *)
+  Lemma bound_walk_spec bufs L fuel : forall p acc, (p <= fuel)%nat ->
+    let r := bound_walk K cmp fuel bufs L p acc in
+    ole r acc /\ forall q, up p q -> ole r (ph (heads bufs) (loser L q)).
+  Proof.
+    assert (Hstep : forall p acc,
+      let player := nth p L (-1) in
+      let b' := if 0 <=? player then
+                  match head_of K bufs player with
+                  | Some h => match acc with
+                              | None => Some h
+                              | Some b => if rcmp h b <? 0 then Some h else acc
+                              end
+                  | None => acc
+                  end
+                else acc in
+      ole b' acc /\ ole b' (ph (heads bufs) (loser L p))).
+    { intros p acc player b'. unfold loser. fold player. subst b'.
+      destruct (Z.leb_spec 0 player) as [Hp|Hp].
+      - rewrite ph_heads by assumption. destruct (head_of K bufs player) as [h|]; [|split; [apply ole_refl|exact I]].
+        destruct acc as [b|]; [|split; [exact I|apply ole_refl]].
+        destruct (Z.ltb_spec (rcmp h b) 0).
+        + split; [|apply ole_refl]. cbn. unfold AbstractProofs.rle. lia.
+        + split; [apply ole_refl|]. cbn. unfold AbstractProofs.rle, Model.rcmp in *.
+          apply (cmp_ge_le K cmp cmp_opp). lia.
+      - split; [apply ole_refl|]. unfold ph. destruct (Z.ltb_spec player 0); [exact I|lia]. }
+    induction fuel as [|f IH]; intros p acc Hf r; subst r; cbn [bound_walk];
+      destruct (Hstep p acc) as [S1 S2]; cbv zeta in S1, S2.
+    - assert (p = 0%nat) by lia. subst p. split; [exact S1|].
+      intros q Hq. apply up_le in Hq. assert (q = 0%nat) by lia. subst q. exact S2.
+    - destruct p as [|p'].
+      + split; [exact S1|]. intros q Hq. apply up_le in Hq. assert (q = 0%nat) by lia. subst q. exact S2.
+      + change ((S p' - 1) / 2)%nat with (parent (S p')).
+        match goal with |- context [bound_walk K cmp f bufs L _ ?b] => set (b' := b) in * end.
+        destruct (IH (parent (S p')) b' ltac:(pose proof (parent_lt (S p') ltac:(lia)); lia)) as [I1 I2].
+        split; [eapply ole_trans; eauto|].
+        intros q Hq. destruct (Nat.eq_dec q (S p')) as [->|Hne].
+        * eapply ole_trans; eauto.
+        * apply I2. apply up_strict; auto.
+  Qed.
+
+  Section Bound.
+    Variables (k : nat) (L : list Z) (hd : nat -> option row) (W : nat -> Z) (wn : nat).
+    Hypothesis SH : Shape k L (Z.of_nat wn) hd W.
+    Let x := (k + wn)%nat.
+
+    (* every other reader is dominated by a loser stored on the winner's path *)
+    Lemma path_covers i : (i < k)%nat -> i <> wn ->
+      exists a, up (parent x) a /\ ole (ph hd (loser L a)) (hd i) /\ loser L a <> Z.of_nat wn.
+    Proof.
+      intros Hi Hne. pose proof (wn_lt k L _ hd W SH wn eq_refl) as Hwn.
+      assert (P : forall q, up (k + i) q ->
+                (~ up x q /\ ole (ph hd (W q)) (hd i)) \/
+                (exists a, up (parent x) a /\ ole (ph hd (loser L a)) (hd i) /\ loser L a <> Z.of_nat wn)).
+      { intros q Hu. induction Hu as [|q Hq Hu IH].
+        - left. split.
+          + intros Hx. apply (up_leaf k) in Hx; unfold x in *; lia.
+          + apply (subtree_min k L _ hd W SH i Hi). constructor.
+        - destruct IH as [[Hoff Hle]|IH]; [|now right].
+          pose proof (up_le _ _ Hu) as Hqle.
+          assert (Hpk : (parent q < k)%nat) by (unfold parent; apply Nat.div_lt_upper_bound; lia).
+          destruct (up_dec x (parent q)) as [Hon|Hoff'].
+          + (* the parent is on the path: q is the sibling of the path child *)
+            right. exists (parent q).
+            assert (Hc : up x (2 * parent q + 1) \/ up x (2 * parent q + 2)) by (apply up_child; [exact Hon|unfold x; lia]).
+            assert (Hl : loser L (parent q) = W q /\ W q <> Z.of_nat wn).
+            { split.
+              - destruct (child_of_parent q Hq) as [Eq|Eq]; destruct Hc as [Hc|Hc]; try (rewrite <- Eq in Hc; contradiction).
+                + pose proof (path_loser k L _ hd W SH wn eq_refl (2 * parent q + 2)%nat q ltac:(lia) Hc) as PL.
+                  rewrite parent_child2 in PL. apply PL. right. split; [reflexivity|exact Eq].
+                + pose proof (path_loser k L _ hd W SH wn eq_refl (2 * parent q + 1)%nat q ltac:(lia) Hc) as PL.
+                  rewrite parent_child1 in PL. apply PL. left. split; [reflexivity|exact Eq].
+              - intros E. apply Hoff. apply (winner_only_on_path k L _ hd W SH wn eq_refl); [lia|exact E]. }
+            destruct Hl as [Hl Hnw]. rewrite Hl. repeat split; auto.
+            apply up_strict; [exact Hon|unfold x; lia].
+          + left. split; [exact Hoff'|].
+            pose proof (sh_game _ _ _ _ _ SH _ Hpk) as Hg.
+            destruct (child_of_parent q Hq) as [Ec|Ec];
+              destruct (sh_node _ _ _ _ _ SH _ Hpk) as [[E1 E2]|[E1 E2]]; rewrite <- Ec in *.
+            * now rewrite E1.
+            * rewrite E2 in Hg. eapply ole_trans; eauto.
+            * rewrite E2 in Hg. eapply ole_trans; eauto.
+            * now rewrite E1. }
+      destruct (P 0%nat (up_root _)) as [[Hoff _]|H]; [|exact H].
+      exfalso. apply Hoff. apply up_root.
+    Qed.
+  End Bound.
 End Tree.
